@@ -16,7 +16,7 @@ CONSTANTS
   MaxRet = 4
   DistinctRets = FALSE
   MaxUnionArgs = 1
-  EmitOneIn = 3
+  EmitOneIn = 5
 INVARIANT PropertyHolds
 INVARIANT MachineIsOperator
 INVARIANT BinderAgrees
